@@ -1201,7 +1201,10 @@ func checkLayout(dir string) string {
 			}
 			d := digest.NewDigestFromEncoded(digest.Algorithm(a.Name()), f.Name())
 			if d.Validate() != nil {
-				continue
+				if isStrayName(f.Name()) {
+					continue // planted by the scenario: no blob at all
+				}
+				return fmt.Sprintf("file blobs/%s/%s is not named after the digest of its bytes (%d bytes)", a.Name(), f.Name(), len(data))
 			}
 			if digest.Algorithm(a.Name()).FromBytes(data) != d {
 				return fmt.Sprintf("blob file %s/%s does not hash to its name (%d bytes)", a.Name(), f.Name()[:12], len(data))
